@@ -26,6 +26,8 @@ SPEC (a dict; everything the source does not say itself)
             is `Except Err St` instead of `Res St α`
   drop_calls   call statements the spec declares outside the model (`super().__init__(src_packet)`)
   drop_stmts   statements (by the start of their text) the spec declares outside the model: they only build a logging string
+  log_effects  True: logging / print calls are not dropped: their arguments are evaluated for the exceptions they raise
+  obj_methods  {(type, method): {lean, args, ret, raises}}: a method of an opaque object a local holds, as an external function
   split_loops  True: the round of a pure `for` fold becomes a definition of its own (`<name>.loop<k>`)
   instances    opaque types whose values are classes a local holds: calling such a local (`mac()`) is the value itself
   calls     {python function name: {lean, args, ret, raises}}   other translated functions this one calls
@@ -901,6 +903,25 @@ class Translator:
             self.bad(node, f"bool() of {x.typ}")
         if fname in ("bytes", "bytearray") and not node.args and not kw:
             return V("([] : Bytes)", "Bytes")
+        if isinstance(f, ast.Attribute) and f.attr == "hex" and not node.args and not kw:
+            x = self.expr(f.value, env)
+            if x.typ == "Option Bytes":
+                x = V(self.hoist(f"PyRt.attrE {x.term}", "Bytes", node), "Bytes")          # None has no hex
+            if x.typ != "Bytes":
+                self.bad(node, f"hex() of {x.typ}")
+            return V(f"(PyRt.hexStr {x.term})", "Str")
+        om = self.spec.get("obj_methods", {})
+        if (isinstance(f, ast.Attribute) and isinstance(f.value, ast.Name) and not kw
+                and (self.seen_types.get(f.value.id, self.spec.get("locals", {}).get(f.value.id)), f.attr) in om):
+            recv = self.expr(f.value, env)             # (UnboundLocalError when no statement on this path has assigned it)
+            c = om[(recv.typ, f.attr)]
+            if len(node.args) != len(c["args"]):
+                self.bad(node, f"`.{f.attr}` with {len(node.args)} arguments, the spec knows {len(c['args'])}")
+            args = [self.coerce(self.expr(a, env), t, node) for a, t in zip(node.args, c["args"])]
+            term = " ".join([c["lean"], recv.term] + args)
+            if c.get("raises"):
+                return V(self.hoist(term, c["ret"], node), c["ret"])
+            return V(f"({term})", c["ret"])
         if isinstance(f, ast.Attribute) and f.attr == "encode" and not node.args and not kw:
             x = self.expr(f.value, env)
             if x.typ != "Str":
@@ -911,6 +932,8 @@ class Translator:
             x = self.expr(node.args[0], env)
             if x.typ == "Bytes":
                 return V(x.term, "Bytes")
+            if is_int(x.typ) and fname != "copy.deepcopy":
+                return V(self.hoist(f"PyRt.zerosE {self.to_int(x)}", "Bytes", node), "Bytes")      # `bytes(n)`: n zero bytes, ValueError for n < 0
             self.bad(node, f"{fname}() of {x.typ}")
         if fname == "int" and not kw:
             if len(node.args) == 1:
@@ -1081,10 +1104,49 @@ class Translator:
                     return True
         return isinstance(st, ast.Pass)
 
+    def log_effects(self, st, rest, env, frame):
+        """spec `log_effects`: a logging / print call still EVALUATES its arguments — `{key.hex()}` inside an f-string raises
+        AttributeError for a `None` key whatever the log level. The values are dropped, the exceptions are not; a local that
+        passed `.hex()` is known not to be None afterwards."""
+        exprs = []
+        for a in list(st.value.args) + [k.value for k in st.value.keywords]:
+            for n in ast.walk(a):
+                if isinstance(n, ast.FormattedValue):
+                    exprs.append(n.value)
+            if not isinstance(a, (ast.JoinedStr, ast.Constant)):
+                exprs.append(a)
+        env = dict(env)
+        saved, self.hoists = self.hoists, []
+        narrowed = []
+        try:
+            for e in exprs:
+                if (isinstance(e, ast.Call) and isinstance(e.func, ast.Attribute) and e.func.attr == "hex" and not e.args
+                        and isinstance(e.func.value, ast.Name) and e.func.value.id in env and env[e.func.value.id].typ == "Option Bytes"):
+                    x = env[e.func.value.id]
+                    t = self.hoist(f"PyRt.attrE {x.term}", "Bytes", e)
+                    narrowed.append((e.func.value, V(t, "Bytes")))
+                    env[e.func.value.id] = V(t, "Bytes")
+                else:
+                    self.expr(e, env)
+            hs = self.hoists
+        finally:
+            self.hoists = saved
+
+        def inner():
+            env2, lines = env, []
+            for tg, v in narrowed:
+                env2, line = self.bind(tg, v, env2, st)
+                lines.append(line)
+            return "".join(l + "\n" for l in lines) + self.block(rest, env2, frame)
+        return self.with_hoists(hs, env, frame, inner)
+
     def block(self, stmts, env, frame):
         if not stmts:
             return frame.fall(env)
         st, rest = stmts[0], stmts[1:]
+        if (self.spec.get("log_effects") and isinstance(st, ast.Expr) and isinstance(st.value, ast.Call)
+                and (self.key(st.value.func) == "print" or self.key(st.value.func).startswith("logging."))):
+            return self.log_effects(st, rest, env, frame)
         if self.dropped(st):
             return self.block(rest, env, frame)
         if any(ast.unparse(st).startswith(p) for p in self.spec.get("drop_stmts", ())):
@@ -1253,6 +1315,14 @@ class Translator:
                 env2["__st"] = V("st'", cur.typ)
                 return (f"PyRt.tryR ({term}) (fun py_e st' => {frame.raise_('py_e', env2)}) (fun {vn} st' =>\n"
                         + ind(k(value(vn), env2)) + ")")
+            if c["kind"] == "extshared":
+                # a method over the same state record that is an external here: `lean st args : Res St ret`
+                cur = env["__st"]
+                term = " ".join([c["lean"], cur.term] + args)
+                env2 = dict(env)
+                env2["__st"] = V("st'", cur.typ)
+                return (f"PyRt.tryR ({term}) (fun py_e st' => {frame.raise_('py_e', env2)}) (fun {vn} st' =>\n"
+                        + ind(k(value(vn), env2)) + ")")
             if c["kind"] == "method":
                 recv = self.read_place(c["recv"], env, call, raw=True)
                 if not recv.typ.startswith("Option "):
@@ -1350,6 +1420,9 @@ class Translator:
     def s_Return(self, st, rest, env, frame):
         if st.value is None:
             return frame.ret(V("()", "NoneType"), env, st)
+        if isinstance(st.value, ast.Call) and self.key(st.value.func) in self.state_calls:
+            return self.state_call(st.value, env, frame,
+                                   lambda v, env1: frame.ret(v if v is not None else V("()", "NoneType"), env1, st))
         val = st.value
         if (isinstance(val, ast.Tuple) and len(val.elts) == 2 and isinstance(val.elts[1], ast.Name)
                 and val.elts[1].id in self.spec.get("objects", ())):
@@ -1452,6 +1525,22 @@ class Translator:
                 and isinstance(c0.args[0], ast.Dict) and len(c0.args[0].keys) == 1 and c0.args[0].keys[0] is not None):
             d = c0.args[0]
             return self.table_set(st, c0.func.value, d.keys[0], d.values[0], rest, env, frame, key_first=True)
+        if (isinstance(c0, ast.Call) and isinstance(c0.func, ast.Attribute) and c0.func.attr == "append" and len(c0.args) == 1
+                and not c0.keywords and isinstance(c0.func.value, ast.Name) and c0.func.value.id in self.owned
+                and c0.func.value.id in env and env[c0.func.value.id].typ == "Bytes"):
+            # `bytearray.append(int)`: ValueError unless in range(256)
+            x = env[c0.func.value.id]
+            v, hs = self.eval(c0.args[0], env)
+            if not is_int(v.typ):
+                self.bad(st, f"bytearray.append() of {v.typ}")
+            saved, self.hoists = self.hoists, list(hs)
+            nv = V(self.hoist(f"PyRt.appendByteE {x.term} {self.to_int(v)}", "Bytes", st), "Bytes")
+            hs, self.hoists = self.hoists, saved
+
+            def inner_ab():
+                env2, line = self.bind(c0.func.value, nv, env, st)
+                return line + "\n" + self.block(rest, env2, frame)
+            return self.with_hoists(hs, env, frame, inner_ab)
         k = self.key(st)
         if k in self.spec.get("drop_calls", ()):
             return self.block(rest, env, frame)              # the spec declares this call outside the model
